@@ -9,8 +9,10 @@ import residuals
 import scaling
 import newton
 
-# (n variables, p equalities, m inequalities): quick tier = the shapes with every constraint kind present / absent and the largest one
-QUICK_SHAPES = [(1, 0, 1), (2, 1, 2), (3, 2, 2), (2, 0, 0), (3, 2, 0), (2, 1, 1)]
+# (n variables, p equalities, m inequalities): quick tier = no equalities, no inequalities, a mixed one and the largest one
+QUICK_SHAPES = [(1, 0, 1), (2, 1, 2), (3, 2, 2), (2, 1, 0)]
+# the m_kkt term nests one max per coefficient (the script grows quickly): two shapes in the quick tier, all of them in the thorough tier
+KKT_QUICK = [(1, 0, 1), (2, 1, 2)]
 ALL_SHAPES = [(n, p, m) for n in (1, 2, 3) for p in (0, 1, 2) for m in (0, 1, 2)]
 
 
@@ -36,7 +38,8 @@ def build(tier):
         for hasQ in (True, False):
             for which, head in residuals.UPDATE_HEADS:
                 jobs.append(guarded(lambda a=(which, head, n, p, m, hasQ): residuals.update_vcs(*a, info), f'program_t::update<{which}> {(n, p, m, hasQ)}'))
-            jobs.append(guarded(lambda a=(n, p, m, hasQ): residuals.kkt_vcs(*a, info), f'solver_state_t::update {(n, p, m, hasQ)}'))
+            if tier == 'thorough' or (n, p, m) in KKT_QUICK:
+                jobs.append(guarded(lambda a=(n, p, m, hasQ): residuals.kkt_vcs(*a, info), f'solver_state_t::update {(n, p, m, hasQ)}'))
         jobs.append(guarded(lambda a=(n, p, m): residuals.residual_vcs(*a, info), f'solver_state_t::residual {(n, p, m)}'))
     jobs += [guarded(j, what) for j, what in scaling.jobs(tier, shapes, info)]
     jobs += [guarded(j, what) for j, what in newton.jobs(tier, shapes, info)]
